@@ -234,6 +234,14 @@ pub fn gen_c13(tier: Tier, seed: u64) -> Case {
         Tier::Thorough => g.r.range(3, 16),
     } as usize;
     let mut program = g.create_initial(n_names);
+    // one program in three runs on a database that was reopened (recovered keyspaces are built by
+    // other code than fresh ones and must share the database's poison flag as well)
+    let recovered = g.r.chance(1, 3);
+    if recovered {
+        let v = g.val_sized(8, true);
+        program.push(Op::Insert { ks: 0, key: g.key(), val: v });
+        program.push(Op::Reopen);
+    }
     program.extend(g.program(n_ops, &mix));
     let kind_f = match g.r.below(3) {
         0 => IoKind::Eio,
@@ -251,7 +259,7 @@ pub fn gen_c13(tier: Tier, seed: u64) -> Case {
         g.cfg.rotation_threshold = 512;
         program.push(Op::Quiesce);
     }
-    let class = format!("{:?}-{:?}-{}", target, match kind_f { IoKind::Short(_) => "Short".to_string(), ref k => format!("{k:?}") }, if persistent { "persistent" } else { "transient" });
+    let class = format!("{:?}-{:?}-{}{}", target, match kind_f { IoKind::Short(_) => "Short".to_string(), ref k => format!("{k:?}") }, if persistent { "persistent" } else { "transient" }, if recovered { "-recovered" } else { "" });
     mk_case("C13", seed, &g, program, Fault::Io { kind: kind_f, target, n: None, persistent }, class)
 }
 
